@@ -1,0 +1,14 @@
+//go:build verif
+
+package c13
+
+import (
+	"github.com/lni/dragonboat/v4/config"
+	"github.com/lni/dragonboat/v4/internal/transport"
+)
+
+// TransportEncrypted is transport.VerifC13TransportEncrypted: the "skip the
+// payload checksum" flag NewTCPTransport derives from the configuration.
+func TransportEncrypted(nhConfig config.NodeHostConfig) bool {
+	return transport.VerifC13TransportEncrypted(nhConfig)
+}
